@@ -1829,6 +1829,193 @@ def gen_race_case(rng, liar, when, T=3, size=None):
             'honest': [c.hex() for c in hchunks], 'liar_events': lev, 'order': order}
 
 
+# ================================================================================ BlobDownloader sessions over responsive scripted peers
+
+from lbry.blob_exchange.downloader import BlobDownloader  # noqa: E402
+from lbry.dht.peer import make_kademlia_peer  # noqa: E402
+
+ONCE_KINDS = ['corrupt', 'short_stall', 'short_close', 'wrong_length', 'excess', 'close0', 'unavailable', 'bad_json',
+              'wrong_hash', 'header_only_close']
+
+
+class FakePeer:
+    """a blob server played by the harness: answers every request it receives on any of its connections; for a hash
+    listed in `once` it misbehaves exactly one time (the first request for it) and is honest afterwards"""
+
+    def __init__(self, loop, port, blobs, once, rng):
+        self.loop, self.port, self.blobs, self.once, self.rng = loop, port, dict(blobs), dict(once), rng
+        self.log = []
+        self.transports = []
+
+    def connect(self, protocol, host):
+        t = FakeTransport(self.loop, protocol, peer=(host, self.port))
+        t.reqbuf = b''
+        t.on_write = lambda data, t=t: self.on_bytes(t, data)
+        self.transports.append(t)
+        return t
+
+    def on_bytes(self, t, data):
+        t.reqbuf += data
+        if not t.reqbuf.endswith(b'}'):
+            return
+        try:
+            req = json.loads(t.reqbuf)
+        except ValueError:
+            return
+        t.reqbuf = b''
+        self.loop.call_soon(self.answer, t, req.get('requested_blob'))
+
+    def send(self, t, *parts):
+        for p in parts:
+            if p == 'close':
+                self.loop.call_soon(t.peer_close)
+            elif p:
+                self.loop.call_soon(t.deliver, p)
+
+    def answer(self, t, h):
+        body = self.blobs.get(h)
+        if body is None:
+            self.log.append(('unavailable', h[:8]))
+            return self.send(t, json.dumps({'available_blobs': [], 'blob_data_payment_rate': 'RATE_ACCEPTED',
+                                            'incoming_blob': {'error': 'BLOB_UNAVAILABLE'}}).encode())
+        kind = self.once.pop(h, None) or 'honest'
+        self.log.append((kind, h[:8]))
+        n = len(body)
+        hdr = honest_header(h, n)
+        if kind == 'honest':
+            k = self.rng.randrange(0, n + 1)
+            return self.send(t, hdr + body[:k], body[k:])
+        if kind == 'corrupt':
+            return self.send(t, hdr, body[:-1] + bytes([body[-1] ^ 0xff]))
+        if kind == 'short_stall':
+            return self.send(t, hdr + body[:max(n // 2, 1)] if n > 1 else hdr)
+        if kind == 'short_close':
+            return self.send(t, hdr, body[:max(n // 2, 1)], 'close')
+        if kind == 'header_only_close':
+            return self.send(t, hdr, 'close')
+        if kind == 'wrong_length':
+            return self.send(t, honest_header(h, n + 1), body)
+        if kind == 'excess':
+            return self.send(t, honest_header(h, n + 1), body + b'x')
+        if kind == 'close0':
+            return self.send(t, 'close')
+        if kind == 'unavailable':
+            return self.send(t, json.dumps({'available_blobs': [], 'blob_data_payment_rate': 'RATE_ACCEPTED',
+                                            'incoming_blob': {'error': 'BLOB_UNAVAILABLE'}}).encode())
+        if kind == 'bad_json':
+            return self.send(t, hdr[:-1] + b']', body)
+        if kind == 'wrong_hash':
+            other = bytes(reversed(body))
+            return self.send(t, honest_header(sha(other), n), other)
+        return self.send(t, hdr, body)
+
+
+def run_downloader_case(run, model, case):
+    """case: {'kind':'downloader','seed','sizes':[..],'peers':[{'holds':[blob idx..],'once':{blob idx: kind}}...],
+    'with_length':[bool..],'precache':[bool..]}: the REAL BlobDownloader.download_blob, blob after blob, over
+    keep-alive connections to responsive scripted peers; a peer misbehaves once for a blob and is honest afterwards.
+    precache: the blob object is first looked up WITHOUT a length (get_blob(hash), as the server does for a remote
+    'do you have it' request) before download_blob(hash, length). Monitor only."""
+    rng = random.Random(case['seed'])
+    blobs = [rng.randbytes(sz) for sz in case['sizes']]
+    hs = [sha(b) for b in blobs]
+    loop = VLoop()
+    asyncio.set_event_loop(loop)
+    d = tempfile.mkdtemp(prefix='c10d')
+    bad = None
+    LIMIT = 45
+    try:
+        conf = Config(data_dir=d, wallet_dir=d, download_dir=d, config=os.path.join(d, 'settings.yml'))
+        conf.blob_download_timeout = 3.0
+        conf.peer_connect_timeout = 2.0
+        bm = BlobManager(loop, d, StubStorage(), conf)
+        peers, kpeers = {}, []
+        for i, pd in enumerate(case['peers']):
+            port = 6000 + i
+            peers[port] = FakePeer(loop, port, {hs[j]: blobs[j] for j in pd['holds']},
+                                   {hs[int(j)]: k for j, k in pd['once'].items()}, rng)
+            kpeers.append(make_kademlia_peer(bytes([49 + i]) * 48, '127.0.0.1', tcp_port=port, allow_localhost=True))
+        loop.fake_connect = lambda p, host, port: peers[port].connect(p, host)
+        q = asyncio.Queue()
+        q.put_nowait(list(kpeers))
+        dl = BlobDownloader(loop, conf, bm, q)
+        for i, h in enumerate(hs):
+            if case['precache'][i]:
+                bm.get_blob(h)
+            length = len(blobs[i]) if case['with_length'][i] else None
+            t0 = loop.vt
+            task = loop.create_task(dl.download_blob(h, length))
+            loop.drain()
+            while not task.done() and loop.vt - t0 < LIMIT:
+                loop.advance(1)
+            path = os.path.join(d, h)
+            on_disk = open(path, 'rb').read() if os.path.isfile(path) else None
+            blob = bm.blobs.get(h)
+            verified = bool(blob and blob.get_is_verified())
+            logs = {p: list(fp.log) for p, fp in peers.items()}
+            if verified and on_disk != blobs[i]:
+                bad = 'blob %d marked verified but the bytes on disk are not the blob' % i
+            elif not verified and on_disk is not None:
+                bad = 'unverified blob %d left on disk' % i
+            elif not task.done() or not verified:
+                bad = ('BlobDownloader.download_blob did not complete blob %d within %d s (virtual; timeouts 3 s, ban 1-4 s) '
+                       'although a peer serves it honestly after misbehaving once: peers answered %r, ignored %d, '
+                       'connections %d, blob.length %r' % (i, LIMIT, logs, len(dl.ignored), len(dl.connections),
+                                                           blob.length if blob else None))
+            elif verified and blob.length != len(blobs[i]):
+                bad = 'blob %d verified but blob.length is %r' % (i, blob.length)
+            if not task.done():
+                task.cancel()
+                loop.drain()
+            run.count('dl:%s' % ('ok' if verified else 'fail'))
+            if bad:
+                break
+        for pd in case['peers']:
+            for k in pd['once'].values():
+                run.count('dl-once:' + k)
+        dl.close()
+        bm.stop()
+    finally:
+        loop.shutdown()
+        asyncio.set_event_loop(None)
+        shutil.rmtree(d, ignore_errors=True)
+    run.case(case, nontrivial=True, validated=False)
+    if bad:
+        run.violation(case, bad, signature={'kind': 'downloader', 'seed': case['seed'], 'sizes': case['sizes'],
+                                            'peers': case['peers'], 'precache': case['precache']})
+
+
+def gen_downloader_case(rng, kind=None, two_peers=None):
+    nb = rng.choice([2, 3])
+    sizes = [rng.choice([1, 100, 5000, 70000]) for _ in range(nb)]
+    two = rng.random() < 0.5 if two_peers is None else two_peers
+    kind = kind or rng.choice(ONCE_KINDS)
+    target = rng.randrange(1, nb)          # blob 0 is always fetched honestly first: the connection is kept
+    with_length = [rng.random() < 0.5 for _ in range(nb)]
+    if kind in ('wrong_length', 'excess'):
+        with_length[target] = True         # with an unknown length these are the known finding race-length-poison
+    peers = [{'holds': list(range(nb)), 'once': {str(target): kind}}]
+    if two:
+        # the second peer holds everything except the target blob (so the first stays the only source), or everything
+        holds = [j for j in range(nb) if j != target] if rng.random() < 0.6 else list(range(nb))
+        peers.append({'holds': holds, 'once': {}})
+    precache = [rng.random() < 0.3 for _ in range(nb)]
+    return {'kind': 'downloader', 'seed': rng.randrange(1 << 30), 'sizes': sizes, 'peers': peers,
+            'with_length': with_length, 'precache': precache, 'once_kind': kind}
+
+
+def fixed_downloader_cases():
+    # /verif/seeded/C10-6/demo.py: blob A ok (connection kept), the only peer corrupts blob B once, then is honest
+    yield {'kind': 'downloader', 'seed': 61, 'sizes': [5000, 70000], 'peers': [{'holds': [0, 1], 'once': {'1': 'corrupt'}}],
+           'with_length': [False, False], 'precache': [False, False], 'once_kind': 'corrupt'}
+    # /verif/seeded/C10-8: blob object cached WITHOUT a length first, then downloaded with its known length from a peer
+    # that announces a wrong length once
+    yield {'kind': 'downloader', 'seed': 81, 'sizes': [100, 100], 'peers': [{'holds': [0, 1], 'once': {'1': 'wrong_length'}}],
+           'with_length': [True, True], 'precache': [True, True], 'once_kind': 'wrong_length'}
+    yield {'kind': 'downloader', 'seed': 82, 'sizes': [100], 'peers': [{'holds': [0], 'once': {'0': 'wrong_length'}}],
+           'with_length': [True], 'precache': [True], 'once_kind': 'wrong_length'}
+
+
 # ================================================================================ server timers: slow readers, silent peers, stalled transfers
 
 def ref_timer_trace(events):
@@ -2009,6 +2196,8 @@ def dispatch(run, model, case):
         run_tserver_case(run, model, case)
     elif k == 'race':
         run_race_case(run, model, case)
+    elif k == 'downloader':
+        run_downloader_case(run, model, case)
     else:
         raise ValueError('unknown case kind %r' % (k,))
 
@@ -2090,6 +2279,9 @@ def main(run):
         'transfers, several transfers per connection, on the virtual clock, against the timer model and a reference trace. '
         'race: one BlobFile, two concurrent request_blob calls, an honest scripted peer and each lying peer of the catalogue, the '
         'liar failing before / during / after / by timeout / randomly interleaved with the honest segments (monitor only). '
+        'downloader: the real BlobDownloader.download_blob, 2-3 blobs over keep-alive connections to one or two responsive scripted '
+        'peers; a peer misbehaves once for a blob after an earlier blob was fetched (10 kinds) and is honest afterwards; blob '
+        'objects optionally pre-cached without a length (monitor only). '
         'parse: _parse_blob_response on mutated headers. thorough adds loopback TCP with the real BlobServer. '
         'distinct = distinct canonical case; non-trivial = every case.' % (len(MISBEHAVIOURS), len(SERVER_TAGS)))
     corpus_dir = os.path.join(vlib.VERIF, 'harness', 'corpus', 'C10')
@@ -2140,6 +2332,15 @@ def main(run):
                 dispatch(run, model, gen_race_case(rng, liar, when))
             if liar not in ('len_bool', 'known_wrong'):   # known_wrong: the CALLER's length is wrong, not a peer's doing
                 dispatch(run, model, gen_retry_case(rng, liar))
+    # --- the real BlobDownloader over responsive scripted peers: a peer misbehaves once mid-session, honest afterwards
+    for case in list(fixed_downloader_cases())[2:]:
+        dispatch(run, model, case)
+    for rep in range(mult):
+        for kind in ONCE_KINDS:
+            for two in (False, True):
+                dispatch(run, model, gen_downloader_case(rng, kind=kind, two_peers=two))
+    for _ in range(20 * mult):
+        dispatch(run, model, gen_downloader_case(rng))
     # --- server timers: slow readers, silent peers, stalled transfers
     for case in fixed_tserver_cases():
         dispatch(run, model, case)
